@@ -8,8 +8,8 @@ def make_scenarios(ctx, n):
     out = []
     for i in range(n):
         t0 = scen.small_tree(ctx.rng)
-        prior = ["one+headless", "one", "two", "one+interrupted", "none"][i % 5] if i < 5 else \
-            ctx.rng.choice(["none", "one", "one", "two", "one+interrupted", "one+headless"])
+        prior = ["one+headless", "one", "two", "one+interrupted", "none", "one+emptyhead"][i % 6] if i < 6 else \
+            ctx.rng.choice(["none", "one", "one", "two", "one+interrupted", "one+headless", "one+emptyhead"])
         t1, _ = gen.mutate_tree(ctx.rng, t0)
         t2, _ = gen.mutate_tree(ctx.rng, t1)
         o = [scen.small_opts(ctx.rng) for _ in range(4)]
@@ -49,6 +49,10 @@ def base_steps(sc):
         # a backup killed after creating its directory, before writing its head
         steps += [{"op": "mktree", "path": "src", "tree": sc["t1"]}, {"op": "walk"},
                   {"op": "backup", "opts": sc["o"][1], "plan": {"crash": 6}}]
+    if sc["prior"] == "one+emptyhead":
+        # a backup killed while writing its head: BANDHEAD exists with no content
+        steps += [{"op": "mktree", "path": "src", "tree": sc["t1"]}, {"op": "walk"},
+                  {"op": "backup", "opts": sc["o"][1], "plan": {"crash_empty": 6}}]
     if sc["prior"] == "one+interrupted":
         steps += [{"op": "mktree", "path": "src", "tree": sc["t1"]}, {"op": "walk"},
                   {"op": "backup", "opts": sc["o"][1], "plan": {"crash": 22}}]
@@ -57,7 +61,7 @@ def base_steps(sc):
 
 
 def nbands_before(sc):
-    return {"none": 0, "one": 1, "two": 2, "one+interrupted": 2, "one+headless": 2}[sc["prior"]]
+    return {"none": 0, "one": 1, "two": 2, "one+interrupted": 2, "one+headless": 2, "one+emptyhead": 2}[sc["prior"]]
 
 
 def after_steps(sc, nb):
@@ -74,7 +78,7 @@ def after_steps(sc, nb):
 
 def run(ctx):
     quick = ctx.tier == "quick"
-    scs = make_scenarios(ctx, 5 if quick else 50)
+    scs = make_scenarios(ctx, 6 if quick else 60)
     ctx.cov["rule"] = ("scenarios (0-2 earlier versions, possibly an interrupted one; a new source tree; options) x EVERY index k of the backup's "
                        "storage trace: stop before operation k, and for every write also stop after creating the file empty; then: the archive "
                        "opens, every previously completed version restores as before (by id and by 'latest complete'), no index entry refers to a "
@@ -229,7 +233,8 @@ def run(ctx):
         for st, rs in zip(bs, sc["ref"][:nbase]):
             if st["op"] == "backup" and st.get("plan"):
                 if rs.get("crashed"):
-                    base.add(st, rs, mode=1, crash=(st["plan"]["crash"], False))
+                    pl = st["plan"]
+                    base.add(st, rs, mode=1, crash=(pl.get("crash", pl.get("crash_empty")), "crash_empty" in pl))
                 else:
                     base.add(st, rs)
             elif st["op"] not in ("arch", "snap"):
